@@ -149,6 +149,9 @@ func (tw *TimerWheel[T]) Purge() (T, bool) {
 
 	// Clear out the items references
 	ti.Next = nil
+	item := ti.Item
+	var zero T
+	ti.Item = zero // a cached item must not keep what it carried alive (the handshake wheel carries pointers)
 
 	// Maybe cache it for later
 	if tw.itemsCached < timerCacheMax {
@@ -157,7 +160,7 @@ func (tw *TimerWheel[T]) Purge() (T, bool) {
 		tw.itemsCached++
 	}
 
-	return ti.Item, true
+	return item, true
 }
 
 // findWheel find the next position in the wheel for the provided timeout given the current tick
